@@ -116,8 +116,10 @@ func (v *vfs) resolve(p string, root string, depth int) (string, *vnode, error) 
 // a later component would come back in), symlinks are followed and must stay
 // inside as well.
 func (v *vfs) resolveInRoot(root, rel string, depth int) (string, *vnode, error) {
-	if depth > 16 {
-		return "", nil, fmt.Errorf("too many levels of symbolic links")
+	// os.Root follows at most 8 symbolic links per operation (rootMaxSymlinks)
+	// and then fails with syscall.ELOOP, before looking at the next target
+	if depth > 8 {
+		return "", nil, errELOOP
 	}
 	cur := root
 	parts := strings.Split(rel, "/")
@@ -161,6 +163,20 @@ func (v *vfs) resolveInRoot(root, rel string, depth int) (string, *vnode, error)
 }
 
 var errNotExist = fmt.Errorf("no such file or directory")
+var errELOOP = fmt.Errorf("too many levels of symbolic links")
+
+// rootErr builds the error of a failed os.Root operation; ELOOP is wrapped as
+// the real syscall.Errno so that errors.Is(err, syscall.ELOOP) holds.
+func (m *Machine) rootErr(op, rel string, err error) value {
+	if err == errELOOP {
+		if p := m.shared.Pkgs["syscall"]; p != nil {
+			if t, ok := p.Members["Errno"].(*ssa.Type); ok {
+				return m.mkErr(op+" "+rel+": "+err.Error(), false, iface{t: t.Type(), v: uintptr(40)})
+			}
+		}
+	}
+	return m.mkErr(op+" "+rel+": "+err.Error(), false)
+}
 
 func within(p, root string) bool {
 	if root == "/" {
@@ -289,7 +305,7 @@ func init() {
 		}
 		rp, n, err := v.resolveInRoot(r.path, rel, 0)
 		if err != nil {
-			return tuple{(*value)(nil), m.mkErr("openat "+rel+": "+err.Error(), false)}
+			return tuple{(*value)(nil), m.rootErr("openat", rel, err)}
 		}
 		if n.kind != "dir" {
 			return tuple{(*value)(nil), m.mkErr("openat "+rel+": not a directory", false)}
@@ -305,7 +321,7 @@ func init() {
 		}
 		rp, n, err := v.resolveInRoot(r.path, rel, 0)
 		if err != nil {
-			return tuple{(*value)(nil), m.mkErr("openat "+rel+": "+err.Error(), false)}
+			return tuple{(*value)(nil), m.rootErr("openat", rel, err)}
 		}
 		if n.kind != "file" {
 			return tuple{(*value)(nil), m.mkErr("openat "+rel+": is a directory", false)}
@@ -369,7 +385,7 @@ func init() {
 		}
 		rp, _, err := v.resolveInRoot(r.path, rel, 0)
 		if err != nil {
-			return tuple{iface{}, m.mkErr("statat "+rel+": "+err.Error(), false)}
+			return tuple{iface{}, m.rootErr("statat", rel, err)}
 		}
 		return tuple{iface{t: m.shared.errorT, v: opaque{kind: "fileinfo", payload: rp}}, iface{}}
 	})
